@@ -362,6 +362,19 @@ def run(ctx):
                 clr = [k.block for k in (cc.calls("re:" + MUT) if cc else []) if {p_[1:] for o in origins(cc, k.args[0]) if o.kind in ("place", "param") for p_ in o.proj if p_.startswith(".")} & pending]
                 ok = bool(dea) and bool(clr) and all(any(cc.dominates(d_, b_) for d_ in dea) for b_ in clr) and bool(cc.calls("re:LruCache.*::clear$"))
                 why = "DEALLOCATE ALL drops every statement on the server, the cache and the record are cleared together"
+            elif fn == "recv":
+                # the server itself reported that the session's statements are gone (command tag DEALLOCATE ALL / DISCARD ALL, D39)
+                rvb = F.body("pgcat::server::Server::recv::{closure#0}")
+                ok = False
+                if rvb:
+                    rsw_ = switches(rvb)
+                    tedges = []
+                    for k in rvb.calls("re:PartialEq.*::eq$"):
+                        if {"DEALLOCATE ALL", "DISCARD ALL"} & set(arg_strs(rvb, k)):
+                            tedges += [te for _s, _o, te, _f in bool_value_edges(rvb, lambda o, k=k: o.kind == "call" and o.call.block == k.block, rsw_)]
+                    rem = [k for k in rvb.calls("re:" + MUT) if {p_[1:] for o in origins(rvb, k.args[0]) if o.kind in ("place", "param") for p_ in o.proj if p_.startswith(".")} & pending]
+                    ok = bool(rem) and all(any(rvb.dominates(te[1], k.block) for te in tedges) for k in rem)
+                why = "only under the command tags DEALLOCATE ALL / DISCARD ALL, when the server has dropped them itself"
             else:
                 ok, why = False, ""
             r5.check(ok, "record-remover:" + fn, "%s removes from the record (%s): %s" % (fn, sorted(ops), why), "%s removes names from Server.%s (%s) without closing them on the server" % (fn, sorted(pending), sorted(ops)))
@@ -379,6 +392,21 @@ def run(ctx):
             noneE, _, _ = discr_edges(cc5, r"core::option::Option<(&mut )?lru::LruCache", "None", switches_cache=cc5sw)  # no cache configured: nothing to empty
             w = cc5.uncrossed_path([k.block], qs, blocks=clears, edges=noneE)
             r5.check(w is None, "drops-all=>cache-cleared:" + txt.strip(" ;"), "`%s` is sent only after the server-side statement cache was emptied" % txt.strip(), "checkin_cleanup can send `%s` (every PGCAT_n statement of the connection is gone) and keep the statement cache: has_prepared_statement() keeps answering true, no Parse is sent again and every later Bind of a cached statement fails with `prepared statement does not exist`" % txt.strip(), k.where(), w and cc5.describe_path(w))
+    # ... and so does every such statement a *client* runs: the server reports it with the command tag (D39)
+    rv5 = ctx.body("pgcat::server::Server::recv::{closure#0}", r5)
+    if rv5:
+        rsw5 = switches(rv5)
+        clears5 = [k.block for k in rv5.calls("re:LruCache.*::clear$")]
+        for tag in ("DEALLOCATE ALL", "DISCARD ALL"):
+            eqs = [k for k in rv5.calls("re:PartialEq.*::eq$") if tag in arg_strs(rv5, k)]
+            ok5 = False
+            for k in eqs:
+                for sw_, o_, te, fe in bool_value_edges(rv5, lambda o, k=k: o.kind == "call" and o.call.block == k.block, rsw5):
+                    if any(rv5.dominates(te[1], b_) for b_ in clears5):
+                        ok5 = True
+            r5.check(ok5, "client-drops-all=>cache-cleared:" + tag, "the command tag `%s` empties the server-side statement cache" % tag,
+                     "Server::recv does not react to the command tag `%s`: a client that runs it drops every PGCAT_n statement of the connection while pgcat's cache keeps them - has_prepared_statement() answers true, no Parse is sent again, "
+                     "and every later Bind of a cached statement by any client of that connection fails with `prepared statement \"PGCAT_n\" does not exist`" % tag)
     rp = ctx.body(RPS, r5)
     if rp:
         r5.check(bool(rp.calls("re:VecDeque::push_back$")), "registering-queue", "the statement being registered is queued for error handling", "register_prepared_statement no longer records the statement being registered")
